@@ -344,4 +344,34 @@ theorem validated_method_is_configured (w : World) (t : TConf) (r : Req) (o : Op
                      rw [← hv]
                      exact hmem)
 
+
+/-- **A request in a compression the transcoder does not know is never validated**: the request compression of
+    every validated operation is either none (`identity` or absent) or a registered one. -/
+theorem validated_compression_known (w : World) (t : TConf) (r : Req) (o : Op) (hv : validate w t r = .ok o) :
+    o.reqMeta.compression.isEmpty = true ∨ o.reqMeta.compression = identityName ∨
+      w.knownCompression o.reqMeta.compression = true := by
+  unfold validate at hv
+  split at hv
+  · simp at hv
+  · split at hv
+    · simp at hv
+    · split at hv
+      · simp at hv
+      · split at hv
+        · simp at hv
+        · split at hv
+          · simp at hv
+          · split at hv
+            · simp at hv
+            · split at hv
+              · simp at hv
+              · rename_i rm h' hex
+                simp only at hv
+                repeat' split at hv
+                all_goals first
+                  | (simp at hv; done)
+                  | (simp only [Except.ok.injEq] at hv
+                     rw [← hv]
+                     by_cases he : rm.compression = [] <;> simp_all)
+
 end Vanguard.C18
